@@ -383,7 +383,12 @@ func (e *Engine) loadContractFile(path string, lib bool, pkg *types.Package) err
 			case "end":
 				cur, curLoop = nil, nil
 			default:
-				// extension clauses (crash, level, ...) kept by name
+				// extension clauses kept by name
+				switch word {
+				case "assume_after", "checked_conversions", "blocks", "holds_read", "before_call", "after_call", "at_exit", "level", "body_ensures", "body_requires":
+				default:
+					return fmt.Errorf("%s:%d: unknown clause %q", rel, rl.line, word)
+				}
 				c, err := mkClause(rest, rl.line)
 				if err != nil {
 					// keep raw text when it is not an expression
@@ -724,6 +729,17 @@ func (e *Engine) bindContracts() error {
 				}
 			}
 			continue
+		}
+		if i := strings.Index(name, "["); i > 0 && strings.HasSuffix(name, "]") {
+			if fn, ok := e.allFuncs[name[:i]]; ok {
+				c.Sig = fn.Signature
+				if len(c.ParamNames) == 0 {
+					for _, p := range fn.Params {
+						c.ParamNames = append(c.ParamNames, p.Name())
+					}
+				}
+				continue
+			}
 		}
 		if strings.HasPrefix(name, "dyn:") {
 			parts := strings.SplitN(strings.TrimPrefix(name, "dyn:"), ".", 2)
